@@ -8,7 +8,7 @@ R3 def-use: settings.DATE_ORDER -> resolve_date_order -> ordered directives -> t
 """
 import ast
 
-from ..core.ctx import conjuncts, enclosing_tests
+from ..core.ctx import conjuncts, enclosing_tests, if_arms
 from ..core.data import LangData, module_literal
 from ..core.index import iter_own_nodes, iter_own_stmts
 from ..core.repo import AnalysisError
@@ -251,11 +251,14 @@ def r3(ctx, chk):
     nsp = ix.func("dateparser.parser:_no_spaces_parser.parse")
     ok = False
     for n in iter_own_nodes(nsp.node):
-        if isinstance(n, ast.If) and isinstance(n.test, ast.Attribute) and n.test.attr == "DATE_ORDER":
-            a = [x for x in n.body if isinstance(x, ast.Assign) and isinstance(x.value, ast.Call)
+        if not isinstance(n, ast.If):
+            continue
+        t_, then_, else_ = if_arms(n)
+        if isinstance(t_, ast.Attribute) and t_.attr == "DATE_ORDER":
+            a = [x for x in then_ if isinstance(x, ast.Assign) and isinstance(x.value, ast.Call)
                  and ast.unparse(x.value.func) == "resolve_date_order" and x.value.args
                  and isinstance(x.value.args[0], ast.Attribute) and x.value.args[0].attr == "DATE_ORDER"]
-            b = [x for x in n.orelse if isinstance(x, ast.Assign) and "_default_order" in ast.unparse(x.value)]
+            b = [x for x in else_ if isinstance(x, ast.Assign) and "_default_order" in ast.unparse(x.value)]
             if a and b and ast.unparse(a[0].targets[0]) == ast.unparse(b[0].targets[0]):
                 var = ast.unparse(a[0].targets[0])
                 ok = any(isinstance(l, ast.For) and isinstance(l.iter, ast.Subscript) and ast.unparse(l.iter.slice) == var
